@@ -80,12 +80,12 @@ def one(job):
 def main():
     jobs = []
     for prop in sorted(os.listdir(ST)):
-        for x in ('A', 'B', 'C', 'D', 'E', 'F', 'G', 'H'):
+        for x in ('A', 'B', 'C', 'D', 'E', 'F', 'G', 'H', 'I', 'J'):
             if os.path.exists(os.path.join(ST, prop, 'patch_%s.diff' % x)) and not os.path.exists(os.path.join(V, 'seeded', '%s-%s' % (prop, x), 'confirm.json')):
                 if len(sys.argv) > 1 and prop not in sys.argv[1:]:
                     continue
                 jobs.append((prop, x))
-    with ThreadPoolExecutor(3) as ex:
+    with ThreadPoolExecutor(int(os.environ.get('CONFIRM_JOBS', '3'))) as ex:
         for r in ex.map(one, jobs):
             print(json.dumps({k: v for k, v in r.items() if k in ('property', 'change', 'status', 'tests_pass_with_change')}), flush=True)
             json.dump(r, open(os.path.join(V, '.work', 'confirm_%s_%s.json' % (r['property'], r['change'])), 'w'), indent=1)
